@@ -363,50 +363,57 @@ def longLen? (n : Nat) (input : Bytes) : Option (Nat × Bytes) :=
       let len := bigOfBytes lb
       if len < 56 then none else some (len, input.drop n)
 
+/-- one item given its first byte `b` and what follows; `sub` decodes a list payload -/
+def decodeHead (b : Nat) (rest : Bytes) (sub : Bytes → Option (List Item)) : Option (Item × Bytes) :=
+  if b < 128 then some (.str [b], rest)
+  else if b < 184 then
+    let len := b - 128
+    if rest.length < len then none
+    else
+      let s := rest.take len
+      if len = 1 ∧ s.headD 0 < 128 then none else some (.str s, rest.drop len)
+  else if b < 192 then
+    match longLen? (b - 183) rest with
+    | none => none
+    | some (len, rest) => if rest.length < len then none else some (.str (rest.take len), rest.drop len)
+  else if b < 248 then
+    let len := b - 192
+    if rest.length < len then none
+    else
+      match sub (rest.take len) with
+      | some items => some (.list items, rest.drop len)
+      | none => none
+  else
+    match longLen? (b - 247) rest with
+    | none => none
+    | some (len, rest) =>
+      if rest.length < len then none
+      else
+        match sub (rest.take len) with
+        | some items => some (.list items, rest.drop len)
+        | none => none
+
+/-- the items of a non-empty payload: `one` decodes the first, `more` the others -/
+def decodeTail (input : Bytes) (one : Bytes → Option (Item × Bytes)) (more : Bytes → Option (List Item)) :
+    Option (List Item) :=
+  match one input with
+  | none => none
+  | some (i, rest) =>
+    match more rest with
+    | some is => some (i :: is)
+    | none => none
+
 mutual
 /-- decode one item from the front of `input`; returns the item and the rest -/
 def decodeItem : Nat → Bytes → Option (Item × Bytes)
   | 0, _ => none
   | _, [] => none
-  | fuel + 1, b :: rest =>
-    if b < 128 then some (.str [b], rest)
-    else if b < 184 then
-      let len := b - 128
-      if rest.length < len then none
-      else
-        let s := rest.take len
-        if len = 1 ∧ s.headD 0 < 128 then none else some (.str s, rest.drop len)
-    else if b < 192 then
-      match longLen? (b - 183) rest with
-      | none => none
-      | some (len, rest) => if rest.length < len then none else some (.str (rest.take len), rest.drop len)
-    else if b < 248 then
-      let len := b - 192
-      if rest.length < len then none
-      else
-        match decodeItems fuel (rest.take len) with
-        | some items => some (.list items, rest.drop len)
-        | none => none
-    else
-      match longLen? (b - 247) rest with
-      | none => none
-      | some (len, rest) =>
-        if rest.length < len then none
-        else
-          match decodeItems fuel (rest.take len) with
-          | some items => some (.list items, rest.drop len)
-          | none => none
+  | fuel + 1, b :: rest => decodeHead b rest (decodeItems fuel)
 /-- decode a whole payload into its items -/
 def decodeItems : Nat → Bytes → Option (List Item)
   | 0, _ => none
   | _, [] => some []
-  | fuel + 1, input =>
-    match decodeItem fuel input with
-    | none => none
-    | some (i, rest) =>
-      match decodeItems fuel rest with
-      | some is => some (i :: is)
-      | none => none
+  | fuel + 1, input => decodeTail input (decodeItem fuel) (decodeItems fuel)
 end
 
 def version : Nat := 2
@@ -421,7 +428,7 @@ def unmarshal (data : Bytes) : Option Definition :=
   | v :: rest =>
     if v ≠ version then none
     else
-      match decodeItem (rest.length + 1) rest with
+      match decodeItem (2 * rest.length + 2) rest with
       | some (item, []) =>
         match Definition.ofItem? item with
         | some d => if d.valid then some d else none
